@@ -137,6 +137,11 @@ def runOp (objs : List Cfg) (i : Nat) (ws : List String) : List Cfg × String :=
     (match slotOf s with
      | some sl => fin (cur.load sl (pd d)) "-"
      | none => (objs, "bad-slot"))
+  | ["LOADU", s, d] =>
+    (match slotOf s with
+     | some sl => (setAt objs i (cur.loadUnmerged sl (pd d)), "-")
+     | none => (objs, "bad-slot"))
+  | ["MERGE"] => fin cur.remerge "-"
   | ["ENV", e] => fin (cur.loadShellEnv (parseEnv e)) "-"
   | ["TASK", noneFlag, cfgs, e] =>
     let cs := if cfgs == "-" then [] else (cfgs.splitOn "/").map pd
@@ -153,18 +158,26 @@ def runOp (objs : List Cfg) (i : Nat) (ws : List String) : List Cfg × String :=
       | .ok (c', o) => (setAt objs i c', showOut o)
       | .error e => (objs, showErr e)
 
+/-- `frozen[i]` = the view object `i` keeps showing after an unmerged load, until its next operation -/
 def runHistory (ops : List String) : String :=
-  let rec go (objs : List Cfg) (ops : List String) (acc : List String) : List String :=
+  let rec go (objs : List Cfg) (frozen : List (Option String)) (ops : List String) (acc : List String) : List String :=
     match ops with
     | [] => acc.reverse
     | o :: rest =>
       let (idx, body) := match o.splitOn ":" with
         | i :: r => (i.toNat?.getD 0, ":".intercalate r)
         | [] => (0, "")
-      let (objs', res) := runOp objs idx (body.splitOn " ")
-      let line := "#".intercalate (res :: objs'.map showView)
-      go objs' rest (line :: acc)
-  "|".intercalate (go [] ops [])
+      let ws := body.splitOn " "
+      let before : String := match frozen.getD idx none with
+        | some v => v
+        | none => showView (objs.getD idx {})
+      let (objs', res) := runOp objs idx ws
+      let frozen1 := frozen ++ List.replicate (objs'.length - frozen.length) none
+      let frozen' := frozen1.set idx (if ws.head? == some "LOADU" then some before else none)
+      let shown := (objs'.zip frozen').map fun (c, f) => match f with | some v => v | none => showView c
+      let line := "#".intercalate (res :: shown)
+      go objs' frozen' rest (line :: acc)
+  "|".intercalate (go [] [] ops [])
 
 def step (line : String) : String := runHistory (line.splitOn ";")
 
